@@ -110,28 +110,31 @@ def explore(ck, hi, hist, cfg, tier, rng, live_trace, rec_trace, counters, plans
         ck.add_tlc("FaultGen (history %d)" % hi, r)
         plans = r.json_lines
         rng.shuffle(plans)
-        take = 16 if tier == "quick" else 120
+        take = 22 if tier == "quick" else 120
         # where does the k-th call of each kind fall?  (operation type of the API call it belongs to, file role)
-        where, cnt_k, cur_t = {}, {}, "setup"
+        where, cnt_k, cur_t, cur_i, nth_in_op = {}, {}, "setup", 0, {}
         for e in raw:
             if e["op"] == "mark":
                 m = e["mark"]
                 if m.startswith("call:") and m[5:].isdigit() and int(m[5:]) <= len(steps):
-                    cur_t = steps[int(m[5:]) - 1]["t"]
+                    cur_t, cur_i = steps[int(m[5:]) - 1]["t"], int(m[5:])
                 continue
             kind = {"create_trunc": "create"}.get(e["op"], e["op"])
             if kind in ("write", "fsync", "fdatasync", "rename", "create", "dirsync"):
                 cnt_k[kind] = cnt_k.get(kind, 0) + 1
                 base = os.path.basename(e.get("path", ""))
                 role = "wal" if base.startswith("wal_") else "man" if base.startswith("MANIFEST") else "snap" if base.startswith("snapshot") else "dir"
-                where[(kind, cnt_k[kind])] = (cur_t, role)
+                nth_in_op[(cur_i, kind, role)] = nth_in_op.get((cur_i, kind, role), 0) + 1
+                where[(kind, cnt_k[kind])] = (cur_t, role, "first" if nth_in_op[(cur_i, kind, role)] == 1 else "later")
         # stratify twice: (1) across all histories of this run, prefer plans whose (operation type, call kind, file role,
         # compound?, partial?) has not been exercised yet - a fault in the rotation after a delete is a different case from
         # one after an insert; (2) within the history, every kind / errno class / second-fault class appears
         chosen, seen = [], set()
-        gkey = lambda p: where.get((p["kind"], p["k"]), ("?", "?")) + (p["kind"],)
+        # a site = (operation type, file role, first / later call of that kind within the operation, call kind); a fault that
+        # persists over the engine's retries is another case than a one-shot fault at the same site
+        gkey = lambda p: where.get((p["kind"], p["k"]), ("?", "?", "?")) + (p["kind"],) + (("persist",) if p["second"] == "persist" else ())
         ALL_KEYS.update(gkey(p) for p in plans)
-        for p in sorted(plans, key=lambda p: (p["second"] != "none", p["partial"] != "none")):     # simple faults first
+        for p in sorted(plans, key=lambda p: (p["second"] not in ("none", "persist"), p["partial"] != "none")):     # simple and persistent faults first
             if gkey(p) in SEEN_KEYS:
                 continue
             SEEN_KEYS.add(gkey(p)); chosen.append(p)
@@ -258,6 +261,32 @@ def run(tier):
     live_trace, rec_trace, counters = [], [], {}
     for hi, h in enumerate(r.json_lines):
         explore(ck, hi, h, pick_cfg(rng, hi + seed()), tier, rng, live_trace, rec_trace, counters)
+    # directed history: a batch delete of two live documents (two frames), a metadata update and a delete, under EVERY
+    # one-shot and EVERY persistent write / fsync fault of the recorded run (a failure of a LATER frame of a batch that
+    # outlasts the engine's retries is the case a sample is least likely to hit)
+    N0 = {"k1": 0, "k2": 0}
+    dsteps = [{"t": "insert", "id": 1, "v": 1, "m": {"k1": 1, "k2": 0}, "merge": False, "ids": []},
+              {"t": "insert", "id": 2, "v": 2, "m": N0, "merge": False, "ids": []},
+              {"t": "bdelete", "id": 0, "v": 0, "m": N0, "merge": False, "ids": [1, 2]},
+              {"t": "insert", "id": 1, "v": 2, "m": N0, "merge": False, "ids": []},
+              {"t": "umeta", "id": 1, "v": 0, "m": {"k1": 0, "k2": 1}, "merge": True, "ids": []},
+              {"t": "delete", "id": 1, "v": 0, "m": N0, "merge": False, "ids": []}]
+    for di, dcfg in enumerate([dict(pick_cfg(rng, 0), cap=1000, snap=0, rot=1 << 20, fsync="Always"),
+                               dict(pick_cfg(rng, 1), cap=1000, snap=2, rot=1, fsync="Always")]):
+        sdd = os.path.join(scratch(), "c03.directed%d" % di)
+        os.makedirs(sdd, exist_ok=True)
+        hp = os.path.join(sdd, "h.json")
+        json.dump({"steps": dsteps}, open(hp, "w"))
+        cl.run_history(hp, dcfg, os.path.join(sdd, "rec"), logp=os.path.join(sdd, "rec.log"))
+        ents = [e for e in cl.read_log(os.path.join(sdd, "rec.log")) if e["op"] not in ("mark", "KILLED")]
+        plans = []
+        for kind in ("write", "fsync"):
+            for k in range(1, sum(1 for e in ents if e["op"] == kind) + 1):
+                for second in ("none", "persist"):
+                    plans.append({"kind": kind, "k": k, "errno": "EIO" if (k + di) % 2 else "ENOSPC", "partial": "none", "second": second})
+        shutil.rmtree(sdd, ignore_errors=True)
+        explore(ck, 1000 + di, {"steps": dsteps}, dcfg, tier, rng, live_trace, rec_trace, counters, plans_override=plans)
+        counters["directed_fault_cases"] = counters.get("directed_fault_cases", 0) + len(plans)
     import durtrace
     res = durtrace.validate(ck, RECORDED, CONSTS["NI"], CONSTS["NV"])
     for tag, (ok, got, total, nxt, problems, viol) in sorted(res.items()):
